@@ -24,6 +24,7 @@ def run(rep, tier, seed):
         dict(name="more_scalar", D=2, P=1, pool="PoolScal", acts="ActsMore", rs="RsCat", tiles="Tiles", maxlen=2 if not q else 1, maxobjs=6),
         dict(name="complex_ops", module="MC_CUTPM", D=2, P=2, pool="PoolCx3", acts="ActsCplx", idx="IdxSmall", maxlen=1 if q else 2, maxobjs=6),
         dict(name="scalar_P2", D=3, P=2, pool="PoolScal", acts="ActsShape", idx="IdxVec", rs="RsCat", maxlen=1, maxobjs=6),
+        dict(name="inplace_on_views", D=2, P=1, pool="PoolMat22", acts="ActsAliasS", idx="IdxSmall", scal="ScalOne", maxlen=2, maxobjs=5),
     ]
     if not q:
         configs += [
